@@ -119,6 +119,14 @@ def check_table(ctx):
                     ctx.ob("R16.1", cons, ok, found=body_src[:120], required="pure scalars go to scalar(data); mixed scalars are refused", mod=ZX, node=st, sig="entry-scalar")
                 else:
                     raise AnalysisError("gate2zx tests class %s, for which the checker has no reference matrix" % cname)
+        elif isinstance(st, ast.If):
+            # every case of gate2zx is selected by the class of the gate: a negated or otherwise different test changes which gates reach the cases below it
+            t = st.test
+            if isinstance(t, ast.UnaryOp) and isinstance(t.op, ast.Not) and isinstance(t.operand, ast.Call) and ast.unparse(t.operand.func) == "isinstance":
+                ctx.ob("R16.1", "%s.gate2zx:%s" % (ZX, ",".join(class_names(t.operand))), False, found=ast.unparse(t), required="the case is taken by the gates of that class (and only them)", mod=ZX, node=st,
+                       sig="entry-negated")
+            else:
+                raise AnalysisError("gate2zx: the case `if %s` is not selected by the class of the gate; cannot decide which gates reach it" % ast.unparse(t)[:60])
         elif isinstance(st, ast.Assign) and isinstance(st.value, ast.Dict):
             try:
                 d = FoldZX(dict(BASE)).visit(st.value)
@@ -138,7 +146,7 @@ def check_table(ctx):
                 except (KeyError, TypeError) as e:
                     raise AnalysisError("gate2zx entry %s outside the foldable vocabulary: %s" % (k, e))
                 ctx.ob("R16.1", "%s.gate2zx:%s" % (ZX, k), ok, found=found, required="proportional to %s" % np.round(REF[k](0), 3).tolist(), mod=ZX, node=st, sig="entry-" + k)
-    want = {"Bra", "Ket", "Rz", "Rx", "CRz", "CRx", "quantum.CU1", "quantum.H", "quantum.Z", "quantum.X", "quantum.Y", "CZ", "CX"}
+    want = {"Bra", "Ket", "Rz", "Rx", "CRz", "CRx", "quantum.CU1", "GatesScalar", "quantum.H", "quantum.Z", "quantum.X", "quantum.Y", "CZ", "CX"}
     ctx.ob("R16.1", ZX + ".gate2zx:coverage", want <= seen, found=sorted(seen), required="entries for " + ", ".join(sorted(want)), mod=ZX, node=fn, sig="coverage", trivial=True)
     last = fn.body[-1]
     ctx.ob("R16.1", ZX + ".gate2zx:lookup", isinstance(last, ast.Return) and ast.unparse(last.value) == "standard_gates[%s]" % boxp, found=ast.unparse(last)[:60],
